@@ -2,6 +2,7 @@ import AdfObdd.AdfPipeline
 import AdfObdd.PreGround
 import AdfObdd.PreGround2
 import AdfObdd.Bridge
+import AdfObdd.FnRA
 /-! # C01 — the grounded interpretation is the least fixpoint, on every back-end
 
 `Gam D` is the three-valued consequence operator of the acceptance conditions `D` (a statement is
@@ -19,6 +20,14 @@ theorem grounded_is_lfp_any_backend {S T : Type} (A : RA S T) (fuel : Nat) (s : 
     (hi : A.Inv s) (hv : AllValid A s ac) (hf : ac.length < fuel) :
     IsLfp (ac.map (A.den s)) (asg3 A (groundedLoop A fuel s ac).2) :=
   grounded_correct A fuel s ac hi hv hf
+
+/-- the biodivine back-end, modelled as the ideal Boolean-function library (terms are functions,
+restriction is the cofactor, constant detection exact — a lawful instance `FnRA`): its grounding
+loop (same round function: snapshot of the decided statements, every undecided condition
+restricted by all of them, stop when nothing new became constant) returns the least fixpoint -/
+theorem grounded_biodivine_model_is_lfp (D : List BoolFn) :
+    IsLfp D (asg3 FnRA (groundedLoop FnRA (D.length + 1) () D).2) :=
+  grounded_ideal_library D
 
 /-- native back-end on the efficient store (unique table, memo tables) -/
 theorem grounded_native_is_lfp (fuel : Nat) (s : Store) (ac : List Nat) (w : WF s)
